@@ -51,7 +51,7 @@ def main():
             "kind_free_text": "contract-based deductive verification: CBMC 6.11 code contracts (requires/ensures/assigns, loop invariants/decreases) on the real C functions, enforced per function with goto-instrument --dfcc, callees replaced by their contracts; bounded CBMC stand-ins labelled as such",
         }],
         "checks": checks,
-        "notes": "One entry point: ./check <id> --tier quick|thorough; exit 0 held, 1 VIOLATION, 2 tool problem. Repairs of genuine defects are unguarded 'fix:' commits in /repo, listed in known_findings.txt as fixed: lines.",
+        "notes": "One entry point: ./check <id> --tier quick|thorough; exit 0 held, 1 VIOLATION, 2 tool problem. Repairs of genuine defects are unguarded 'fix:' commits in /repo, listed in known_findings.txt as fixed: lines; known findings are the known: lines there (each with a confirmation job). './check ALL --tier quick' runs every quick job once and writes all evidence files. Jobs listed in jobs/off.list are written but not run on this machine (reasons there and in DESIGN.md 8.10). The runner schedules by expected memory (VERIF_MEM_GB, default 56) and retries once a job that was killed for lack of memory under load.",
         "not_applicable": [{"property_id": k, "reason": v} for k, v in sorted(NA.items())],
     }
     json.dump(man, open(os.path.join(VERIF, "MANIFEST.json"), "w"), indent=1)
